@@ -157,21 +157,26 @@ def register_p(reg, prop):
     order = [flag(f) for f in ("AngularVelocity", "ParentID", "TreeSpecies", "ScratchPad", "Text", "MediaURL", "PSBlock", "Sound",
                                "NameValue", "TextureAnim", "PSBlockNew")]
     assert sorted(order) == sorted(bits)
-    insts = [((b,), "quick") for b in order] + [((a, b), "quick") for a, b in zip(order, order[1:])]
-    insts += [((a, b), "thorough") for a, b in itertools.combinations(order, 2) if (a, b) not in zip(order, order[1:])]
-    insts.append((tuple(order), "thorough"))
-    for free, tier in insts:
+    insts = [((), "quick", True)] + [((b,), "quick", False) for b in order] + [((a, b), "quick", False) for a, b in zip(order, order[1:])]
+    insts += [((a, b), "thorough", True) for a, b in itertools.combinations(order, 2)]
+    insts.append((tuple(order), "thorough", True))
+    av, pr = int(tmpls.PCode.AVATAR), int(tmpls.PCode.PRIMITIVE)
+    for free, tier, kinds_free in insts:
         others = allmask & ~sum(free)
-        nm = "+".join(str(b) for b in free) if len(free) < 11 else "all"
+        nm = ("+".join(str(b) for b in free) if len(free) < 11 else "all") or "none"
+        cs = {"flags": f"(flags & {others}) == 0 and 0 <= flags"}
+        if not kinds_free:
+            # the object-kind dispatch reads nothing from the payload; its three ways are covered by the instances with kinds free
+            cs["pcode"] = f"pcode != {av} and pcode != {pr}"
         reg.add_fn(FnContract(
-            key=f"hippolyzer.lib.base.objects:FastObjectUpdateCompressedDataDeserializer.read@flags{nm}", relpath=OREL,
-            qualname="FastObjectUpdateCompressedDataDeserializer.read", prop=prop, tier=tier,
+            key=f"hippolyzer.lib.base.objects:FastObjectUpdateCompressedDataDeserializer.read@flags{nm}" + ("" if kinds_free else "/otherkinds"),
+            relpath=OREL, qualname="FastObjectUpdateCompressedDataDeserializer.read", prop=prop, tier=tier,
             params={"data": "Bytes"}, param_names=["data"], param_values={"cls": F}, returns=o,
             consts={"tmpls": tmpls, "se": se}, externals=ext,
             may_raise={"AnyException": "", "struct.error": "", "ValueError": "", "IndexError": ""},
-            ensures=list(ens), loops={}, frame=None,
-            case_split={"flags": f"(flags & {others}) == 0 and 0 <= flags"},
-            doc=f"instance: section flags {nm} free, every other section flag clear"))
+            ensures=list(ens), loops={}, frame=None, case_split=cs,
+            doc=f"instance: section flags {nm} free, every other section flag clear; object kind "
+                + ("free" if kinds_free else "neither avatar nor primitive")))
 
     def layout():
         return [(nm, [], z3.BoolVal(bool(ok)), []) for nm, ok in static_layout_facts()]
